@@ -137,8 +137,13 @@ def convert_response(response) -> List[Trigger]:
     all_triggers: Dict[str, Trigger] = {}
     for r in response:
         # from the incoming tracepoints create a Trigger with actions
-        trigger = build_trigger(r.ID, r.path, r.line_number, dict(r.args), [w for w in r.watches],
-                                __convert_metric_definition(r.metrics))
+        try:
+            trigger = build_trigger(r.ID, r.path, r.line_number, dict(r.args), [w for w in r.watches],
+                                    __convert_metric_definition(r.metrics))
+        except Exception:
+            # e.g. a metric type this client does not know (a newer service): costs this tracepoint only
+            logging.exception("Cannot convert tracepoint %s (%s:%s)", r.ID, r.path, r.line_number)
+            trigger = None
         if trigger is None:
             # a tracepoint we cannot interpret must not cost us the rest of the response
             logging.warning("Cannot interpret tracepoint %s (%s:%s), ignoring it.", r.ID, r.path, r.line_number)
